@@ -668,6 +668,34 @@ def string_escapes(F, res, rule="G9"):
            how="; ".join(bad) if bad else "table: %s" % {"%d/%s" % k: v for k, v in sorted(table.items())})
 
 
+    # what the callback remembers from one string to the next (the lexer's extras): a remembered failure answers later quotes without
+    # scanning. That is the same token stream only if the memory is written where the scan has run out of input and nowhere else.
+    writes, bad_w = [], []
+    for b, i, s_ in f.stmts():
+        if s_["k"] != "assign" or not any(isinstance(e, dict) and e.get("n") == "extras" for e in s_["place"]["p"]):
+            continue
+        k = (s_["rv"].get("op") or {}).get("k") if s_["rv"]["k"] == "use" else None
+        if isinstance(k, dict) and str(k.get("bits")) == "0":
+            continue                      # forgetting is always safe: the next quote is scanned
+        writes.append(b)
+        none_edges = []
+        for b2, t2 in f.calls():
+            if FL.short(callee(t2) or callee_def(t2) or "").endswith("::next"):
+                nb = t2.get("target")
+                tt = f.term(nb) if nb is not None else {}
+                if tt.get("k") == "switch":
+                    none_edges += [x for v, x in tt["targets"] if int(v) == 0]
+        if not any(f.dominates(n_, b) for n_ in none_edges):
+            bad_w.append("line %s: written on a path that has not seen the end of the input" % s_["ln"])
+            continue
+        why, bb, env = CF.run(f, b, {}, stop=heads)
+        if not (why == "return" and env.get(0) == 0):
+            bad_w.append("line %s: the scan that remembers a failure does not itself answer false (%s)" % (s_["ln"], why))
+    res.ob(rule, "string/memory", "what lex_string remembers between two strings (Lexer.extras) is set only where the scan for the closing quote has run "
+           "out of input, and that scan answers false: a later scan would walk over the same characters in the same state", not bad_w, where=f.loc(),
+           how="; ".join(bad_w) if bad_w else "%d write(s), each behind the None edge of the character iterator" % len(writes))
+
+
 def delimiters_belong_to_their_node(F, res, rule="G7"):
     """G7: "the boundaries the source intended": a construct written between an opening and a closing delimiter is one node that
     contains both. In a parser function that consumes an opener and its closer (expect/eat of `(`..`)`, `[`..`]`, `{`..`}`,
